@@ -398,6 +398,12 @@ func (it *Interp) anyModel() Model {
 		it.lastModel = p.model
 		return p.model
 	}
+	if len(p.pc) == 0 {
+		// no symbolic constraint on this path: every assignment is a model
+		p.model = Model{}
+		it.lastModel = p.model
+		return p.model
+	}
 	r, m := it.check(nil, true)
 	if r == Sat {
 		p.model = m
